@@ -656,12 +656,16 @@ def solve_near(s, V, target, stats=None, rounds=8):
 
 
 def z3val(v):
-    if z3.is_rational_value(v): return float(Fraction(v.numerator_as_long(), v.denominator_as_long()))
-    if z3.is_algebraic_value(v): return float(v.approx(30).as_fraction())
     try:
+        if z3.is_rational_value(v):
+            n, d = v.numerator_as_long(), v.denominator_as_long()
+            try: return float(Fraction(n, d))
+            except OverflowError: return (1e300 if (n > 0) == (d > 0) else -1e300) if abs(n) > abs(d) else 0.0
+        if z3.is_algebraic_value(v): return float(v.approx(30).as_fraction())
         return float(v.as_fraction())
     except Exception:
-        return float(str(v))
+        try: return float(str(v))
+        except Exception: return 0.0
 
 
 # ---------------------------------------------------------------- running harnesses
